@@ -1,1 +1,83 @@
-import Model.Diff.Text
+import Proofs.Diff
+import Proofs.Faithful
+import Model.Diff.Pretty
+/-!
+# C10 — tree view, text view, to_dict, to_json and pretty() describe the same changes
+
+Model: the tree is a list of (category, level); the text view is `textView` (`TextResult`), built
+from the same tree (`to_dict(view_override)` is `textView`/identity on that tree; `to_json` dumps the
+text view).  The clause about node identity / up-down pointers is a heap fact checked by the harness.
+-/
+namespace Diff
+open Py
+
+/-- every tree entry that the visibility table admits yields exactly one text entry, every other
+entry none: the text view is the tree filtered by the documented table -/
+theorem C10_entry_visible (verbose : Nat) (c : Cat) (l : Level) :
+    (entryOf verbose c l).isSome = visible verbose c := by
+  cases c <;> simp [entryOf, visible] <;> split <;> simp_all
+
+theorem entryOf_cat {verbose : Nat} {c : Cat} {l : Level} {te : TextEntry} (h : entryOf verbose c l = some te) :
+    te.cat = c.name := by
+  cases c <;> simp only [entryOf] at h
+  case valuesChanged => split at h <;> simp at h; rw [← h]
+  case iterMoved => split at h <;> simp at h; rw [← h]
+  all_goals (simp at h; rw [← h])
+
+theorem C10_text_of_tree (verbose : Nat) (t : Tree) :
+    (textView verbose t).length = (t.filter (fun e => visible verbose e.1)).length ∧
+    (textView verbose t).map (·.cat) = (t.filter (fun e => visible verbose e.1)).map (·.1.name) := by
+  induction t with
+  | nil => simp [textView]
+  | cons e t ih =>
+    obtain ⟨c, l⟩ := e
+    have hv := C10_entry_visible verbose c l
+    simp only [textView, List.filterMap_cons, List.filter_cons] at ih ⊢
+    cases he : entryOf verbose c l with
+    | none =>
+      have : visible verbose c = false := by rw [← hv, he]; rfl
+      simp only [this, Bool.false_eq_true, ↓reduceIte]
+      exact ih
+    | some te =>
+      have hvis : visible verbose c = true := by rw [← hv, he]; rfl
+      have hcat : te.cat = c.name := entryOf_cat he
+      simp only [hvis, ↓reduceIte, List.length_cons, List.map_cons, hcat]
+      exact ⟨by rw [ih.1], by rw [ih.2]⟩
+
+/-- at `verbose_level=2` nothing is hidden: the text view has one entry per tree entry -/
+theorem C10_text_verbose2_total (t : Tree) : (textView 2 t).length = t.length := by
+  have h := (C10_text_of_tree 2 t).1
+  have : t.filter (fun e => visible 2 e.1) = t := by
+    rw [List.filter_eq_self]; intro e _; cases e.1 <;> simp [visible]
+  rw [h, this]
+
+/-- the reported path and payload of a text entry are those of the tree level it came from -/
+theorem C10_payload (verbose : Nat) (l : Level) (hv : 0 < verbose) :
+    entryOf verbose .valuesChanged l =
+      some ⟨"values_changed", pathStr l.steps false,
+        [("new_value", .val (l.t2.getD .none)), ("old_value", .val (l.t1.getD .none))] ++
+        (if verbose > 1 && pathStr l.steps false != pathStr l.steps true then [("new_path", .path (pathStr l.steps true))] else []) ++
+        (if l.udiff then [("diff", .udiff)] else [])⟩ := by
+  simp [entryOf, hv, Cat.name]
+
+/-- every tree node's t1 and t2 are the actual sub-objects of the inputs: the chain of child
+relationships from the root (which holds the original t1 and t2: `steps = [] ++ rest`) leads, on the
+t1 side, to the node's t1 inside `a` and, on the t2 side, to its t2 inside `b` — in a value model
+"the sub-object" is the value at that position; identity of Python objects and the up/down pointers
+are checked on the heap by the harness -/
+theorem C10_levels (cfg : DCfg) (al : Align) (hashOf : PyVal → String) (a b : PyVal)
+    (ha : wf a = true) (hb : wf b = true) :
+    ∀ e ∈ (diffV cfg al hashOf [] a b).tree, isSetCat e.1 = false → Backed a b [] e :=
+  diffV_backed cfg al hashOf a b [] ha hb
+
+/-- `pretty()` has one statement per change -/
+theorem C10_pretty_count (t : Tree) : (prettyStatements t).length = t.length := by
+  unfold prettyStatements prettyKeys
+  induction t with
+  | nil => simp
+  | cons e t ih =>
+    obtain ⟨c, l⟩ := e
+    simp only [List.flatMap_cons, List.flatMap_nil, List.filter_cons, List.append_nil, List.length_append] at ih ⊢
+    cases c <;> simp_all <;> omega
+
+end Diff
